@@ -24,6 +24,24 @@ to the constructors the writer declares (CAPS):
              page header, page footer) on 1- and 2-unit documents.
   G-family   spreadsheets (xlsx, ods, xls, csv): every grid with <= R rows of 1..C cells, each cell empty or a string token,
              1 sheet; all pairs (thorough: also triples) of small sheets.           quick: R=C=2; thorough: R=C=3
+  M-family   multiplicity: documents in which the SAME text occurs several times (every other family gives every text leaf
+             its own token, so "same multiplicity" was only ever judged for multiplicity one).  Documents: every sequence of
+             <= NBM leaf carriers (paragraph of 1..2 runs joined by nothing / tab / line break, heading, list of 1..3 one-paragraph
+             items, list item of two paragraphs, 1x1 1x2 2x1 (3x1) table) with 2..LM text leaves in one unit, every split of <= 2
+             single carriers (thorough: <= 2 carriers each) over two units, and every single table of <= TR x TC cells, each
+             cell empty or text, with <= LT text leaves - each under EVERY assignment of texts to leaves in which at least one
+             text occurs twice (all restricted-growth strings except the identity).  Spreadsheets: every grid of <= GR rows of
+             1..GC cells, each cell empty or text, <= GL texts, under every such assignment.
+                                   quick: NBM=3 LM=3 TR=TC=2 LT=4 (GR,GC,GL)=(3,2,6)
+                                   thorough: NBM=3 LM=4 TR=3 TC=2 LT=5 (GR,GC,GL) in (3,2,6) (3,3,4) (4,2,4), two carriers per unit
+             Rendered to every format, and additionally with the format's native run-length encoding of repetition
+             (`ods+rle`, `odt+rle`, `odp+rle`, `odg+rle`: identical adjacent cells of a row become ONE cell carrying
+             table:number-columns-repeated, identical adjacent rows ONE row carrying table:number-rows-repeated - the way
+             office applications store them; for `ods+rle` also over all G-family grids, where runs of empty cells / rows
+             compress).  xlsx / xls store one shared string per distinct text, so their M-family cells share SST entries.
+             The oracle counts: a text that the source holds n times must occur exactly n times (fewer: lost, more: dup); when
+             all counts agree the complete occurrence sequence must equal the source sequence (order) and every judged
+             boundary between neighbouring occurrences must be white space (merged).
 Terms that a writer cannot express (NotImplementedError) are skipped and counted as `inexpressible`.
 
 Oracle clauses (each is a fingerprint clause): lost, dup, order, merged, leak, invented  (see judge()).
@@ -104,6 +122,11 @@ def _render(fmt, doc):
         return getattr(ooxml, base)(doc, imgs)
     if base in ("odt", "odp", "odg", "odf", "ods"):
         from verif.gen import odf
+        if fmt.endswith("+rle"):
+            doc2, opts = rle(doc)
+            if base == "ods":
+                return odf.ods(doc2, None, opts)
+            return getattr(odf, base)(doc2, {"i1": (_png(), "png")}, opts)
         if base in ("ods", "odf"):
             return getattr(odf, base)(doc)
         return getattr(odf, base)(doc, {"i1": (_png(), "png")})
@@ -231,11 +254,14 @@ def _clauses(fmt):
     return ALL_CLAUSES
 
 
-SHEET_FORMATS = ("xlsx", "xlsx+inline", "ods", "xls", "csv")
+SHEET_FORMATS = ("xlsx", "xlsx+inline", "ods", "ods+rle", "xls", "csv")
+RLE_DOC_FORMATS = ("odt+rle", "odp+rle", "odg+rle")      # M-family only: tables with identical adjacent cells / rows, run-length encoded
 ADM_FORMATS = ("docx", "docx+bsdt", "docx+pagebr", "docx+colbr", "pptx", "pptx+nooff", "odt", "odp", "odg", "odf", "html", "mhtml", "mhtml+b64", "epub", "rtf", "pdf", "txt", "md", "json",
-               "csv", "eml", "eml+html", "mbox", "ppt", "ppt+textbox")
+               "csv", "eml", "eml+html", "mbox", "ppt", "ppt+textbox") + RLE_DOC_FORMATS
 THOROUGH_ONLY = ("mhtml+b64", "xlsx+inline")
 FORMATS = ADM_FORMATS + tuple(f for f in SHEET_FORMATS if f != "csv") + ("csv+sheet",)
+# variants that differ from their base format only on particular terms take the M-family of the base format's other variants for granted
+NO_M_FAMILY_QUICK = ("docx+bsdt", "docx+pagebr", "docx+colbr", "pptx+nooff", "ppt+textbox")
 
 
 # ====================================================================================================== enumeration
@@ -544,6 +570,193 @@ def _g_family(tier):
                     yield (a, c, d)
 
 
+# ---------------------------------------------------------------------------------------------- M-family (multiplicity)
+
+# G = boxes (rows, cells per row, texts) of the spreadsheet grids: the union of the boxes is enumerated
+M_BOUNDS = {"quick": dict(NBM=3, LM=3, UC=1, TR=2, TC=2, LT=4, G=((3, 2, 6),)),
+            "thorough": dict(NBM=3, LM=4, UC=2, TR=3, TC=2, LT=5, G=((3, 2, 6), (3, 3, 4), (4, 2, 4)))}
+
+
+def _rgs(n):
+    """all restricted-growth strings of length n (= all partitions of n leaves into classes of equal text), identity last"""
+    def rec(pre, m):
+        if len(pre) == n:
+            yield tuple(pre)
+            return
+        for v in range(1, m + 2):
+            yield from rec(pre + [v], max(m, v))
+    yield from rec([], 0)
+
+
+def _m_carriers(caps, tier):
+    """leaf carriers: (block skeleton, number of text leaves)"""
+    T = ("t",)
+    out = [(P_T, 1)]
+    seps = [()] + [((x,),) for x in ("tab", "br") if x in caps]
+    for sep in seps:
+        out.append((("p", (T,) + sep + (T,)), 2))
+    if "h" in caps:
+        out.append((("h", 1, (T,)), 1))
+    if "ul" in caps:
+        for n in (1, 2, 3):
+            out.append((("ul", ((P_T,),) * n), n))
+        out.append((("ul", ((P_T, P_T),)), 2))
+    if "tbl" in caps:
+        shapes = [(1, 1), (1, 2), (2, 1)] + ([(3, 1)] if tier == "thorough" else [])
+        for r, c in shapes:
+            out.append((("tbl", (((P_T,),) * c,) * r), r * c))
+    return out
+
+
+def _m_units(caps, tier):
+    """unit skeletons (tuple of unit block sequences) with their leaf counts, before texts are assigned"""
+    mb = M_BOUNDS[tier]
+    car = _m_carriers(caps, tier)
+
+    def seqs(maxn, maxleaves):
+        out = [((), 0)]
+        if maxn == 0:
+            return out
+        for blk, n in car:
+            if n <= maxleaves:
+                for rest, rn in seqs(maxn - 1, maxleaves - n):
+                    out.append(((blk,) + rest, n + rn))
+        return out
+    for sq, n in seqs(mb["NBM"], mb["LM"]):
+        if n >= 2:
+            yield (sq,), n
+    if "multiunit" in caps:
+        per_unit = [x for x in seqs(mb["UC"], mb["LM"] - 1) if x[1] >= 1]
+        for a, na in per_unit:
+            for b, nb in per_unit:
+                if na + nb <= mb["LM"]:
+                    yield (a, b), na + nb
+    if "tbl" in caps:
+        import itertools
+        for r in range(1, mb["TR"] + 1):
+            for c in range(1, mb["TC"] + 1):
+                for fill in itertools.product((0, 1), repeat=r * c):
+                    n = sum(fill)
+                    if 2 <= n <= mb["LT"]:
+                        rows = tuple(tuple((P_T,) if fill[i * c + j] else () for j in range(c)) for i in range(r))
+                        yield ((("tbl", rows),),), n
+
+
+def _m_family(fmt, tier):
+    """(unit skeletons, text assignment) - every assignment in which at least one text occurs twice"""
+    caps = _caps(fmt)
+    seen = set()
+    for units, n in _m_units(caps, tier):
+        if units in seen:
+            continue
+        seen.add(units)
+        for g in _rgs(n):
+            if max(g) < n:
+                yield ("M", units, g)
+
+
+def _m_grids(tier, identity_too=False):
+    """spreadsheet grids whose cells are 0 (empty) or the number of a text; at least one text occurs twice"""
+    import itertools
+    boxes = M_BOUNDS[tier]["G"]
+    for nrows in range(1, max(b[0] for b in boxes) + 1):
+        for shape in itertools.product(range(1, max(b[1] for b in boxes) + 1), repeat=nrows):
+            ncell = sum(shape)
+            for fill in itertools.product((0, 1), repeat=ncell):
+                k = sum(fill)
+                if k < 1 or not any(nrows <= b[0] and max(shape) <= b[1] and k <= b[2] for b in boxes):
+                    continue
+                for g in _rgs(k):
+                    if max(g) == k and not identity_too:
+                        continue
+                    it = iter(g)
+                    flat = [next(it) if f else 0 for f in fill]
+                    rows, at = [], 0
+                    for w in shape:
+                        rows.append(tuple(flat[at:at + w]))
+                        at += w
+                    yield ("MG", tuple(rows))
+
+
+# ---------------------------------------------------------------------------------------------- run-length encoding (ODF)
+
+def _rle_rows(rows, t, cell_rep, row_rep):
+    """rows of JSON cells -> rows in which a run of identical adjacent cells is one cell and a run of identical adjacent rows one row;
+    the run lengths go to cell_rep ([t, row, cell, n]) / row_rep ([t, row, n]) in the form the ODF writer takes"""
+    enc = []
+    for row in rows:
+        cells, reps = [], []
+        for c in row:
+            if cells and cells[-1] == c:
+                reps[-1] += 1
+            else:
+                cells.append(c)
+                reps.append(1)
+        enc.append((cells, reps))
+    out, rr = [], []
+    for e in enc:
+        if out and out[-1] == e:
+            rr[-1] += 1
+        else:
+            out.append(e)
+            rr.append(1)
+    for r, ((cells, reps), n) in enumerate(zip(out, rr)):
+        if n > 1:
+            row_rep.append([t, r, n])
+        for ci, k in enumerate(reps):
+            if k > 1:
+                cell_rep.append([t, r, ci, k])
+    return [cells for cells, _ in out]
+
+
+def rle(doc):
+    """-> (document with run-length encoded tables / sheets, writer opts naming the repeat counts). Tables are numbered in document
+    order, outermost first, over the ENCODED document (the order in which the writer meets them)."""
+    cell_rep, row_rep = [], []
+    units = doc[2]
+    if units and units[0][0] == "sheet":
+        new = [["sheet", sh[1], _rle_rows(sh[2], si, cell_rep, row_rep)] for si, sh in enumerate(units)]
+        return ["doc", doc[1], new], {"cell_repeat": cell_rep, "row_repeat": row_rep}
+    counter = [0]
+
+    def inl(xs):
+        out = []
+        for x in xs:
+            if x[0] == "box":
+                out.append(["box", blocks(x[1])])
+            elif x[0] == "a":
+                out.append(["a", x[1], inl(x[2])])
+            elif x[0] == "sdt":
+                out.append(["sdt", inl(x[1])])
+            else:
+                out.append(x)
+        return out
+
+    def blocks(bs):
+        out = []
+        for b in bs:
+            k = b[0]
+            if k == "tbl":
+                t = counter[0]
+                counter[0] += 1
+                rows = _rle_rows(b[1], t, cell_rep, row_rep)
+                out.append(["tbl", [[blocks(c) for c in row] for row in rows]])
+            elif k == "ul":
+                out.append(["ul", [blocks(it) for it in b[1]]])
+            elif k in ("p", "h"):
+                out.append(list(b[:-1]) + [inl(b[-1])])
+            else:
+                out.append(b)
+        return out
+    new = [["unit", blocks(u[1])] + list(u[2:]) for u in units]
+    return ["doc", doc[1], new], {"cell_repeat": cell_rep, "row_repeat": row_rep}
+
+
+def _rle_changes(doc):
+    o = rle(doc)[1]
+    return bool(o["cell_repeat"] or o["row_repeat"])
+
+
 # ---------------------------------------------------------------------------------------------- skeleton -> ADM with tokens
 
 def _build_blocks(bs, tk, cls):
@@ -596,6 +809,8 @@ def _build_inl(xs, tk, cls):
 
 def build_doc(skel, seed):
     """skeleton (tuple of unit block sequences | ("E", ...) | sheet grids) -> ADM document with fresh tokens"""
+    if skel and skel[0] == "M":
+        return _alias(build_doc(skel[1], seed), skel[2])
     tk = Tokens(seed)
     if skel and skel[0] == "E":
         _, base, chosen, ui = skel
@@ -618,7 +833,36 @@ def build_doc(skel, seed):
     return ["doc", {}, [["unit", _build_blocks(bs, tk, "B"), {}] for bs in skel]]
 
 
+def _alias(doc, g):
+    """give the i-th text leaf (document order) the token of the first leaf of its class g[i]"""
+    rep = {}
+    it = iter(g)
+
+    def go(x):
+        if isinstance(x, list):
+            if len(x) == 2 and x[0] == "t" and isinstance(x[1], str):
+                return ["t", rep.setdefault(next(it), x[1])]
+            return [go(y) for y in x]
+        return x
+    out = go(doc)
+    if next(it, None) is not None:
+        raise AssertionError("text assignment longer than the number of text leaves")
+    return out
+
+
+def build_sheets_m(rows, seed):
+    tk = Tokens(seed)
+    name = tk.new("N")
+    toks = {}
+    grid = []
+    for row in rows:
+        grid.append([(["s", toks.get(v) or toks.setdefault(v, tk.new("C"))] if v else None) for v in row])
+    return ["doc", {}, [["sheet", name, grid]]]
+
+
 def build_sheets(skel, seed):
+    if skel and skel[0] == "MG":
+        return build_sheets_m(skel[1], seed)
     tk = Tokens(seed)
     sheets = []
     for g in skel:
@@ -639,7 +883,7 @@ def _has_inline(x, kind):
 
 def skeletons(fmt, tier, k=0, n=1):
     """The skeletons of partition k of n of the format's space, without duplicates. ('adm'|'sheet', skeleton)"""
-    if fmt in ("xlsx", "xlsx+inline", "ods", "xls", "csv+sheet"):
+    if fmt in ("xlsx", "xlsx+inline", "ods", "ods+rle", "xls", "csv+sheet"):
         seen = set()
         i = 0
         for g in _g_family(tier):
@@ -650,9 +894,25 @@ def skeletons(fmt, tier, k=0, n=1):
                 if i % n == k:
                     yield ("sheet", g)
                 i += 1
+        for g in _m_grids(tier, identity_too=(fmt == "ods+rle")):
+            if i % n == k:
+                yield ("sheet", g)
+            i += 1
+        return
+    i = 0
+    if fmt in RLE_DOC_FORMATS:
+        caps = _caps(fmt)
+        useen = set()
+        for units, nl in _m_units(caps, tier):
+            if units in useen:
+                continue
+            useen.add(units)
+            for g in _rgs(nl):
+                if i % n == k:
+                    yield ("adm", ("M", units, g))
+                i += 1
         return
     cset = set()
-    i = 0
     for sk in _c_family(fmt, tier):
         if sk not in cset:
             cset.add(sk)
@@ -663,6 +923,11 @@ def skeletons(fmt, tier, k=0, n=1):
         if i % n == k:
             yield ("adm", sk)
         i += 1
+    if not (tier == "quick" and fmt in NO_M_FAMILY_QUICK):
+        for sk in _m_family(fmt, tier):
+            if i % n == k:
+                yield ("adm", sk)
+            i += 1
     for sk in _s_family(fmt, tier, k, n):
         if sk not in cset:
             yield ("adm", sk)
@@ -671,6 +936,8 @@ def skeletons(fmt, tier, k=0, n=1):
 def cases_for(fmt, tier, seed, k=0, n=1):
     for kind, sk in skeletons(fmt, tier, k, n):
         doc = build_sheets(sk, seed) if kind == "sheet" else build_doc(sk, seed)
+        if fmt.endswith("+rle") and not _rle_changes(doc):
+            continue          # the variant differs from its base format only where a table / sheet has identical adjacent cells or rows
         if fmt == "docx+bsdt" and not _has_block_sdt(doc):
             continue          # the variant differs from docx only where a top-level paragraph is one content control
         if fmt in ("docx+pagebr", "docx+colbr") and not _has_inline(doc, "br"):
@@ -782,7 +1049,21 @@ def truth_for(fmt, doc):
             for row in grid:
                 for cell in row:
                     tabletoks.update(cell)
-    if base == "ppt":
+    if base == "ppt" and len(set(t for t, _ in vis)) != len(vis):
+        # the same rule as below, by position instead of by token (a text may occur several times)
+        out = []
+        for u in doc[2]:
+            hi = next((i for i, b in enumerate(u[1]) if b[0] == "h"), None)
+            if hi is None or not _visible(["doc", {}, [["unit", [u[1][hi]], {}]]]):
+                out += _visible(["doc", {}, [["unit", u[1], {}]]])
+                continue
+            tv = _visible(["doc", {}, [["unit", [u[1][hi]], {}]]])
+            rest = _visible(["doc", {}, [["unit", u[1][:hi] + u[1][hi + 1:], {}]]])
+            if rest:
+                rest[0] = (rest[0][0], "para")
+            out += tv + rest
+        vis = out
+    elif base == "ppt":
         # documented: per slide title + body + other. The writer makes the first heading of a slide its title placeholder.
         out = []
         for ui, u in enumerate(doc[2]):
@@ -804,7 +1085,41 @@ def truth_for(fmt, doc):
                 uvis = tv + rest
             out += uvis
         vis = out
-    return {"visible": vis, "hidden": list(tr["hidden"]), "dontcare": list(tr["dontcare"]), "tabletoks": tabletoks}
+    return {"visible": vis, "hidden": list(tr["hidden"]), "dontcare": list(tr["dontcare"]), "tabletoks": tabletoks,
+            "tablecount": _table_token_counts(doc) if tabletoks else {}}
+
+
+def _table_token_counts(doc):
+    """token -> number of its occurrences inside tables (each occurrence counted once, however deep)"""
+    cnt = {}
+
+    def inl(xs, intab):
+        for x in xs:
+            if x[0] in ("t", "ins"):
+                if intab:
+                    cnt[x[1]] = cnt.get(x[1], 0) + 1
+            elif x[0] == "a":
+                inl(x[2], intab)
+            elif x[0] == "sdt":
+                inl(x[1], intab)
+            elif x[0] == "box":
+                blocks(x[1], intab)
+
+    def blocks(bs, intab):
+        for b in bs:
+            if b[0] in ("p", "h"):
+                inl(b[-1], intab)
+            elif b[0] == "ul":
+                for it in b[1]:
+                    blocks(it, intab)
+            elif b[0] == "tbl":
+                for row in b[1]:
+                    for cell in row:
+                        blocks(cell, True)
+    for u in doc[2]:
+        if u[0] == "unit":
+            blocks(u[1], False)
+    return cnt
 
 
 # ====================================================================================================== oracle
@@ -823,7 +1138,10 @@ def judge(fmt, doc, text, tabs, tr=None):
               once and in order, have no white-space character between them (csv: the field delimiter counts, raw content)
     leak      a hidden token (deleted text, comment, speaker note, header / footer) occurs in the text
     invented  text minus all source tokens (visible, hidden, don't care), minus link targets, minus note citation digits
-              (documents with footnotes), minus the ppt master prompts still contains a letter or digit"""
+              (documents with footnotes), minus the ppt master prompts still contains a letter or digit
+    A text that the source holds n times (M-family) must occur exactly n times: fewer is `lost`, more is `dup`; when all counts agree
+    the whole occurrence sequence is compared with the source sequence (`order`) and every judged boundary between neighbouring
+    occurrences must contain white space (`merged`)."""
     tr = tr or truth_for(fmt, doc)
     clauses = _clauses(fmt)
     base = fmt.split("+")[0]
@@ -837,55 +1155,99 @@ def judge(fmt, doc, text, tabs, tr=None):
             tabocc.setdefault(m.group(0), []).append(i)
     vis = tr["visible"]
     tt = tr["tabletoks"]
-    lost, dup = [], []
+    exp = {}
     for tok, _ in vis:
+        exp[tok] = exp.get(tok, 0) + 1
+    multi = len(exp) != len(vis)              # some text occurs several times in the source (M-family)
+    tcount = tr.get("tablecount") or {}
+    lost, dup = [], []
+    for tok in exp:                           # insertion order = order of first occurrence in the source
+        e = exp[tok]
         if tok in tt:
             n_text, n_tab = len(occ.get(tok, [])), len(tabocc.get(tok, []))
-            if n_text == 0 and n_tab == 0:
+            e_tab = tcount.get(tok, e) if multi else e
+            e_txt = e - e_tab                 # occurrences outside tables must be in the text; those inside tables in the text or in the cells
+            if n_text < e_txt or (n_tab < e_tab and n_text < e):
                 lost.append(tok)
-            elif n_text > 1 or n_tab > 1:
+            elif n_text > e or n_tab > e_tab:
                 dup.append(tok)
         else:
             n = len(occ.get(tok, []))
-            if n == 0:
+            if n < e:
                 lost.append(tok)
-            elif n > 1:
+            elif n > e:
                 dup.append(tok)
     abst = _abstractor(doc)
+
+    def times(toks):
+        return [(abst(t), "source x%d" % exp[t], "text x%d" % len(occ.get(t, []))) for t in toks]
     if lost and "lost" in clauses:
-        fails.append(("lost", "visible text %s missing from get_full_text()%s: %r" % (
-            [abst(t) for t in lost], " and iterate_tables()" if tt else "", text[:300])))
+        if multi:
+            fails.append(("lost", "visible text occurs fewer times in get_full_text()%s than in the source: %s in %r" % (
+                " and iterate_tables()" if tt else "", times(lost), text[:300])))
+        else:
+            fails.append(("lost", "visible text %s missing from get_full_text()%s: %r" % (
+                [abst(t) for t in lost], " and iterate_tables()" if tt else "", text[:300])))
     if dup and "dup" in clauses:
-        fails.append(("dup", "visible text %s occurs more than once: %r%s" % (
-            [abst(t) for t in dup], text[:300], (" tables %r" % tabs[:12]) if tt else "")))
+        if multi:
+            fails.append(("dup", "visible text occurs more often than in the source: %s in %r%s" % (
+                times(dup), text[:300], (" tables %r" % tabs[:12]) if tt else "")))
+        else:
+            fails.append(("dup", "visible text %s occurs more than once: %r%s" % (
+                [abst(t) for t in dup], text[:300], (" tables %r" % tabs[:12]) if tt else "")))
+    # with repeated texts: when every count agrees (and no token lives in iterate_tables()), the complete sequence of occurrences
+    # is comparable with the source sequence position by position
+    aligned = None
+    if multi and not tt and not lost and not dup:
+        aligned = sorted((p0, p1, t) for t in exp for p0, p1 in occ.get(t, []))
     # order: first occurrences, text tokens and table tokens separately
     if "order" in clauses:
-        seq = [(occ[t][0][0], t) for t, _ in vis if t not in tt and t in occ]
         bad = None
-        for (p1, t1), (p2, t2) in zip(seq, seq[1:]):
-            if p2 < p1:
-                bad = (t1, t2)
-                break
-        if bad is None and tt:
-            seq = [(tabocc[t][0], t) for t, _ in vis if t in tt and t in tabocc and t not in occ]
+        if aligned is not None:
+            for (p0, p1, got), (want, _) in zip(aligned, vis):
+                if got != want:
+                    bad = (want, got)
+                    break
+            if bad:
+                fails.append(("order", "occurrence sequence differs from the source: expected %s where %s stands: %r" % (
+                    abst(bad[0]), abst(bad[1]), text[:300])))
+                bad = None
+                aligned = None
+        else:
+            seq = [(occ[t][0][0], t) for t in exp if t not in tt and t in occ]
             for (p1, t1), (p2, t2) in zip(seq, seq[1:]):
                 if p2 < p1:
                     bad = (t1, t2)
                     break
+            if bad is None and tt:
+                seq = [(tabocc[t][0], t) for t in exp if t in tt and t in tabocc and t not in occ]
+                for (p1, t1), (p2, t2) in zip(seq, seq[1:]):
+                    if p2 < p1:
+                        bad = (t1, t2)
+                        break
         if bad:
             fails.append(("order", "%s precedes %s in the source but follows it in the output: %r" % (abst(bad[0]), abst(bad[1]), text[:300])))
+    elif aligned is not None and [t for _, _, t in aligned] != [t for t, _ in vis]:
+        aligned = None
     if "merged" in clauses:
         merged = []
-        for (a, _), (b, bnd) in zip(vis, vis[1:]):
-            if bnd not in JUDGED_BOUNDARIES or a in tt or b in tt:
-                continue
-            if len(occ.get(a, [])) != 1 or len(occ.get(b, [])) != 1:
-                continue
-            ea, sb = occ[a][0][1], occ[b][0][0]
-            if ea <= sb and not _WS.search(text[ea:sb]):
-                if base == "csv" and "," in text[ea:sb]:
-                    continue      # documented: csv returns the raw content; the field delimiter is the source's own separator
-                merged.append((a, b, bnd))
+        if aligned is not None:
+            for (_, ea, a), (sb, _, b), (_, bnd) in zip(aligned, aligned[1:], vis[1:]):
+                if bnd in JUDGED_BOUNDARIES and not _WS.search(text[ea:sb]):
+                    if base == "csv" and "," in text[ea:sb]:
+                        continue
+                    merged.append((a, b, bnd))
+        else:
+            for (a, _), (b, bnd) in zip(vis, vis[1:]):
+                if bnd not in JUDGED_BOUNDARIES or a in tt or b in tt:
+                    continue
+                if exp[a] != 1 or exp[b] != 1 or len(occ.get(a, [])) != 1 or len(occ.get(b, [])) != 1:
+                    continue
+                ea, sb = occ[a][0][1], occ[b][0][0]
+                if ea <= sb and not _WS.search(text[ea:sb]):
+                    if base == "csv" and "," in text[ea:sb]:
+                        continue      # documented: csv returns the raw content; the field delimiter is the source's own separator
+                    merged.append((a, b, bnd))
         if merged:
             fails.append(("merged", "neighbours separated by a %s boundary in the source have no white space between them: %s in %r" % (
                 merged[0][2], [(abst(a), abst(b)) for a, b, _ in merged], text[:300])))
@@ -984,7 +1346,52 @@ def reexec(fmt, case):
 
 def shrinks(doc):
     """Smaller well-formed ADM documents: drop a unit / block / inline / item / row / cell / extra / meta key, hoist the
-    contents of a container in place of the container, turn a heading into a paragraph."""
+    contents of a container in place of the container, turn a heading into a paragraph; last: give one occurrence of a
+    repeated text a text of its own (a failure that survives this does not need the coincidence)."""
+    yield from _shrinks_structural(doc)
+    yield from _unalias(doc)
+
+
+def _unalias(doc):
+    """documents in which one later occurrence of a repeated text leaf is replaced by a fresh text"""
+    used = set()
+
+    def collect(x):
+        if isinstance(x, str):
+            used.add(x)
+        elif isinstance(x, list):
+            for y in x:
+                collect(y)
+        elif isinstance(x, dict):
+            for v in x.values():
+                collect(v)
+    collect(doc)
+    tk = Tokens(0)
+    fresh = tk.new("B")
+    while fresh in used:
+        fresh = tk.new("B")
+    paths, seen = [], set()
+
+    def walk(x, path):
+        if isinstance(x, list):
+            if len(x) == 2 and x[0] in ("t", "s") and isinstance(x[1], str):
+                if x[1] in seen:
+                    paths.append(path)
+                seen.add(x[1])
+                return
+            for i, y in enumerate(x):
+                walk(y, path + (i,))
+    walk(doc[2], ())
+
+    def put(x, path):
+        if not path:
+            return [x[0], fresh]
+        return x[:path[0]] + [put(x[path[0]], path[1:])] + x[path[0] + 1:]
+    for pth in paths:
+        yield ["doc", doc[1], put(doc[2], pth)]
+
+
+def _shrinks_structural(doc):
     meta, units = doc[1] or {}, doc[2]
     if units and units[0][0] == "sheet":
         for i in range(len(units)):
@@ -1092,35 +1499,57 @@ def _leaf_eq(a, b):
     return a == b
 
 
+def _repeats_a_text(case):
+    seen = set()
+
+    def go(x):
+        if isinstance(x, list):
+            if len(x) == 2 and x[0] in ("t", "s", "ins") and isinstance(x[1], str):
+                if x[1] in seen:
+                    return True
+                seen.add(x[1])
+                return False
+            return any(go(y) for y in x)
+        return False
+    return go(case)
+
+
 def embeds(small, big):
     """Sub-term (homeomorphic) embedding of ADM documents: `small` is obtainable from `big` by deleting nodes and hoisting
-    children. Visible token classes are interchangeable (the class only records the context of a text leaf)."""
+    children. Visible token classes are interchangeable (the class only records the context of a text leaf); a minimal
+    shape in which one text occurs several times only accounts for cases in which some text occurs several times."""
+    if _repeats_a_text(small) and not _repeats_a_text(big):
+        return False
+    return _embeds(small, big)
+
+
+def _embeds(small, big):
     if small is None:
         return True
     if isinstance(small, dict):
         if isinstance(big, dict):
-            if all(k in big and embeds(v, big[k]) for k, v in small.items()):
+            if all(k in big and _embeds(v, big[k]) for k, v in small.items()):
                 return True
-            return any(embeds(small, v) for v in big.values())
+            return any(_embeds(small, v) for v in big.values())
         if isinstance(big, (list, tuple)):
-            return any(embeds(small, v) for v in big)
+            return any(_embeds(small, v) for v in big)
         return False
     if isinstance(small, (list, tuple)):
         if isinstance(big, (list, tuple)):
             i = 0
             for b in big:
-                if i < len(small) and embeds(small[i], b):
+                if i < len(small) and _embeds(small[i], b):
                     i += 1
             if i == len(small):
                 return True
-            return any(embeds(small, b) for b in big)
+            return any(_embeds(small, b) for b in big)
         if isinstance(big, dict):
-            return any(embeds(small, v) for v in big.values())
+            return any(_embeds(small, v) for v in big.values())
         return False
     if isinstance(big, (list, tuple)):
-        return any(embeds(small, b) for b in big)
+        return any(_embeds(small, b) for b in big)
     if isinstance(big, dict):
-        return any(embeds(small, v) for v in big.values())
+        return any(_embeds(small, v) for v in big.values())
     return _leaf_eq(small, big)
 
 
@@ -1172,7 +1601,8 @@ def _part(arg):
 
 
 def _partitions(fmt, tier):
-    big = {"docx": 64, "odt": 64, "rtf": 64, "pptx": 32, "odp": 32, "odg": 32, "epub": 32, "csv": 32}
+    big = {"docx": 64, "odt": 64, "rtf": 64, "pptx": 32, "odp": 32, "odg": 32, "epub": 32, "csv": 32,
+           "xlsx": 32, "xlsx+inline": 32, "xls": 32, "ods": 32, "ods+rle": 32, "csv+sheet": 16}
     mid = ("html", "mhtml", "mhtml+b64", "md", "txt", "eml", "eml+html", "mbox", "ppt", "ppt+textbox", "pdf")
     n = big.get(fmt, 16 if fmt in mid else 2)
     if tier == "quick":
@@ -1221,16 +1651,19 @@ def run(ctx):
     for f_, v in sigs.items():
         per_fmt[f_]["distinct_output_layouts"] = len(v)
     cov = {"evaluations": ev, "distinct_nontrivial": sum(len(v) for v in sigs.values()), "outcome_classes": len(outcomes), "exhaustive": True, "inexpressible_terms_skipped": skipped,
-           "rule": "every ADM term of the S-, C-, E- (documents) and G- (spreadsheets) families within the tier bounds, restricted to each "
+           "rule": "every ADM term of the S-, C-, E-, M- (documents) and G-, M- (spreadsheets) families within the tier bounds (M = every assignment "
+                   "of texts to the leaves of a small document / grid in which a text occurs several times, also run-length encoded for ODF), restricted to each "
                    "writer's CAPS, rendered by the reference writer and extracted by the real extractor; evaluations = (format, term) pairs "
                    "extracted and judged on all applicable clauses; distinct_nontrivial = distinct (format, output layout) pairs observed, a layout "
                    "being the extracted text with tokens abstracted to T and every white-space run to its strongest character; outcome_classes = "
                    "distinct (format, set of failed clauses)",
-           "bounds": dict(b, S_bonus=S_BONUS), "per_format": per_fmt, "outcomes": dict(sorted(outcomes.items())), "samples": picked[:6]}
+           "bounds": dict(b, S_bonus=S_BONUS, M_family=M_BOUNDS[ctx.tier]), "per_format": per_fmt, "outcomes": dict(sorted(outcomes.items())), "samples": picked[:6]}
     return {"coverage": cov, "failures": fails, "harness_errors": herr, "assumptions": ASSUMPTIONS}
 
 
 ASSUMPTIONS = [
+    "a cell / row carrying table:number-columns-repeated / table:number-rows-repeated stands for that many identical adjacent cells / rows "
+    "(ODF 1.2 part 1, definitions of these attributes): its text is in the source that many times",
     "footnote bodies, hyperlink targets and sheet names are class Z / decoration: neither required nor forbidden, removed before `invented`",
     "digits are not judged by `invented` in documents with a footnote (the citation mark is in the source)",
     "PDF is judged for lost/dup/order/leak only; e-mail with only an HTML body (raw body_html is the documented full text) for lost/dup/order only",
